@@ -11,7 +11,18 @@ def make_docs(rng, n):
         g = DocGen(rng, hostile_strings=False, adversarial_names=(i % 3 == 0), dynamic=0.0, callbacks=0.0,
                    max_depth=rng.choice((3, 4, 5, 7)), max_fanout=rng.choice((3, 5, 8)),
                    max_objects=rng.choice((8, 20, 40, 80)), max_bindings=rng.choice((0, 1, 3)), groups=False)
-        docs.append(g.make())
+        d = g.make()
+        d.decorated = False
+        if i % 6 == 5:
+            # decorations in front of child objects must never make an object disappear: an annotated / commented child is
+            # either rejected with a diagnostic or present in the form
+            objs = [o for o in d.objects() if o.parent is not None]
+            for o in rng.sample(objs, min(len(objs), rng.randint(1, 3))):
+                o.prefix = rng.choice(('@Deprecated {}\n', '@Meta { note: "x" }\n', '@Meta { note: "x" } ', '/* c */ ', '// c\n',
+                                       '@A {}\n@B {}\n', '/** doc */\n'))
+                d.decorated = d.decorated or o.prefix.startswith("@")
+            d.print(None)
+        docs.append(d)
     return docs
 
 
@@ -27,7 +38,7 @@ def run(tier, seed, replay=None):
             raise common.HarnessError("replay case not regenerated (different seed/tier?)")
     res, out = doccheck.translate_docs(docs, modes=("generate",), want=("ui",), tag="c11")
     shapes = set()
-    n_acc = n_rej = n_obj = n_addaction = 0
+    n_acc = n_rej = n_obj = n_addaction = n_rej_decorated = n_acc_decorated = 0
     kinds = {}
     samples = []
     rejected_msgs = {}
@@ -39,6 +50,11 @@ def run(tier, seed, replay=None):
         if g.get("panic"):
             v.inconc("panic (C07's business): %s" % g["panic"])
             continue
+        if not doccheck.accepted(g) and d.decorated:
+            n_rej_decorated += 1
+            continue
+        if d.decorated:
+            n_acc_decorated += 1
         if not doccheck.accepted(g):
             n_rej += 1
             for dg in g.get("diagnostics", [])[:1]:
@@ -95,5 +111,5 @@ def run(tier, seed, replay=None):
              "tab widgets, main windows; tree isomorphism + addaction sequence; distinct = distinct (class, has-id, children) "
              "tree shape with >= 4 objects",
         samples=samples, accepted=n_acc, rejected=n_rej, rejected_reasons=rejected_msgs, objects_matched=n_obj,
-        objects_by_kind=kinds, addaction_entries_checked=n_addaction, floor=50 if tier == "quick" else 500,
+        objects_by_kind=kinds, annotated_documents_rejected=n_rej_decorated, annotated_documents_accepted=n_acc_decorated, addaction_entries_checked=n_addaction, floor=50 if tier == "quick" else 500,
     )
